@@ -398,8 +398,12 @@ func (g *gen) callText(f *fn, callee string) (string, bool) {
 				}
 			}
 			n := g.pick(4)
+			vpos := argPos
+			if g.avoided("variadic-arg-const") {
+				vpos = posPlain // an untyped constant is not adapted to the element type of a variadic parameter
+			}
 			for j := 0; j < n; j++ {
-				args = append(args, g.exprPos(p.t.elem, 1, argPos))
+				args = append(args, g.exprPos(p.t.elem, 1, vpos))
 			}
 		default:
 			args = append(args, g.exprPos(p.t, 1, argPos))
